@@ -212,7 +212,7 @@ def _mis_structured_text(w):
     return "does not exist, but a jump to it does" in err or err.startswith(("Unexpected break_loop", "Unexpected continue", "Unexpected break"))
 
 
-def _reachable_offsets(routine, ctx_aware=True, follow_calls=True):
+def _reachable_offsets(routine, ctx_aware=True, follow_calls=True, through_ends=False):
     """offsets of the ops of one routine that are reachable from its first op (following jumps inside the routine).
     ctx_aware=False: as the decompiler sees it (a flow-ending op ends the flow also when it is run under lives / object / performer)"""
     from vf.lts import FLOW_END, CTX_OPS
@@ -231,7 +231,7 @@ def _reachable_offsets(routine, ctx_aware=True, follow_calls=True):
         if t is not None and t in idx and (follow_calls or name != "Call"):
             stack.append(idx[t])
         after_ctx = ctx_aware and i > 0 and ops[i - 1][1] in CTX_OPS
-        if name == "Jump" or (name in FLOW_END and not after_ctx):
+        if name == "Jump" or (name in FLOW_END and not after_ctx and not through_ends):
             continue
         stack.append(i + 1)
     return {ops[i][0] for i in seen}
@@ -428,15 +428,13 @@ def _m_called_only(v):
     from vf.lts import FLOW_END
 
     for r in rs:
-        reach = _reachable_offsets(r, ctx_aware=False, follow_calls=False)
-        prev = {o[0]: (r["ops"][i - 1] if i else None) for i, o in enumerate(r["ops"])}
+        # what the writer visits: from the first op along jumps and fall-through, also past flow-ending ops (with calls in the
+        # routine set it keeps going after `end;` / `return;`), but not into called labels and not past a Jump
+        reach = _reachable_offsets(r, ctx_aware=False, follow_calls=False, through_ends=True)
         own = {o[0] for o in r["ops"]}
         for o in r["ops"]:
             if o[1] == "Call":
                 t = _jump_target(o)
                 if t in own and t not in reach and o[0] in reach:
-                    # walk back over ops that are themselves only reachable by falling through from a flow end
-                    p = prev[t]
-                    if p is None or p[1] not in FLOW_END:
-                        return True
+                    return True
     return False
